@@ -1,6 +1,6 @@
 SPECIFICATION Spec
 CONSTANTS
-  Fams = {"single", "disjoint", "adjacent", "stacked", "overlap", "nested", "lshape", "para", "curved", "cross4", "corner", "mixed4"}
+  Fams = {"cross4", "corner", "mixed4"}
   MaxRoutes = 2
   PerClass = 2
   DEV_RemoveNoRebuild = FALSE
